@@ -32,7 +32,10 @@ class Types:
     def __init__(self, prog: Program, use_cache: bool = True):
         self.prog = prog
         os.makedirs(CACHE_DIR, exist_ok=True)
-        path = os.path.join(CACHE_DIR, f"types-{prog.digest[:32]}.json")
+        import hashlib
+        with open(os.path.join(os.path.dirname(os.path.abspath(__file__)), "typed_worker.py"), "rb") as fh_:
+            wv = hashlib.sha256(fh_.read()).hexdigest()[:8]  # the worker's own text: a changed worker must not read what the old one wrote
+        path = os.path.join(CACHE_DIR, f"types-{prog.digest[:32]}-{wv}.json")
         if not (use_cache and os.path.exists(path)):
             self._run_worker(prog.repo, path)
         try:
